@@ -484,6 +484,9 @@ func (d *driver) explore(from int, noEvidence, noMin bool) int {
 
 	// reach probes: a thorough run that no longer reaches what it claims is
 	// harness trouble, not a pass.
+	if n := counters["reference_failed"]; n > 0 {
+		troubles = append(troubles, fmt.Sprintf("%d fault-free reference builds of generated (valid) configurations failed: %s", n, strings.Join(notes, "; ")))
+	}
 	for _, p := range requiredProbes(d.prop, d.tier) {
 		if counters[p] == 0 {
 			troubles = append(troubles, "reach probe stuck at zero: "+p)
